@@ -161,6 +161,9 @@ func (c *Candidates) SetDeletedCandidates(list []types.DeletedCandidate) {
 
 	c.dirtyDeletedCandidates = true
 	for _, deleted := range list {
+		if c.maxID < uint32(deleted.ID) {
+			c.maxID = uint32(deleted.ID)
+		}
 		c.deletedCandidates[deleted.PubKey] = &deletedID{
 			ID:      uint32(deleted.ID),
 			PybKey:  deleted.PubKey,
